@@ -105,11 +105,15 @@ func (p *Program) background(d *Decls) []*T {
 	var out []*T
 	// string literals
 	var lits []string
-	for name := range p.strVals {
+	p.mu.Lock()
+	litVals := map[string]string{}
+	for name, v := range p.strVals {
 		if d.Has(name) {
 			lits = append(lits, name)
+			litVals[name] = v
 		}
 	}
+	p.mu.Unlock()
 	sort.Strings(lits)
 	if len(lits) > 1 {
 		var args []*T
@@ -119,7 +123,7 @@ func (p *Program) background(d *Decls) []*T {
 		out = append(out, App("distinct", SBool, args...))
 	}
 	for _, l := range lits {
-		v := p.strVals[l]
+		v := litVals[l]
 		if d.Has("slen") {
 			out = append(out, Eq(App("slen", SInt, Sym(l, SStr)), IntLit(int64(len(v)))))
 		}
@@ -133,7 +137,7 @@ func (p *Program) background(d *Decls) []*T {
 	if d.Has("hasPrefix") || d.Has("contains") {
 		for _, a := range lits {
 			for _, b := range lits {
-				va, vb := p.strVals[a], p.strVals[b]
+				va, vb := litVals[a], litVals[b]
 				if d.Has("hasPrefix") {
 					f := App("hasPrefix", SBool, Sym(a, SStr), Sym(b, SStr))
 					if strings.HasPrefix(va, vb) {
